@@ -17,6 +17,10 @@
 
 package tan
 
+import (
+	"github.com/lni/dragonboat/v4/raftio"
+)
+
 // verifEnabled is true only in builds made with the `verif` build tag used by
 // the deterministic simulation harness kept outside of this repository.
 const verifEnabled = false
@@ -24,3 +28,7 @@ const verifEnabled = false
 func (d *db) verifNotifyDeleteObsolete() {}
 
 func (o *Options) verifOverride() {}
+
+func verifIterateRegular(map[raftio.NodeInfo]*db, func(*db) error) error { return nil }
+
+func verifIterateMultiplexed(map[uint64]*db, func(*db) error) error { return nil }
